@@ -5,6 +5,6 @@ cd /repo && git apply "$patch" || { echo "patch does not apply"; exit 3; }
 trap 'cd /repo && git checkout -- . ' EXIT
 cd /verif
 for id in "$@"; do
-  ./check "$id" "${TIER:-quick}" > /tmp/mut_$id.log 2>&1; rc=$?
+  VERIF_NO_EVIDENCE=1 ./check "$id" "${TIER:-quick}" > /tmp/mut_$id.log 2>&1; rc=$?
   echo "$id rc=$rc $(grep -c '^VIOLATION' /tmp/mut_$id.log) violation lines; first: $(grep -A1 '^VIOLATION' /tmp/mut_$id.log | sed -n 2p | cut -c1-200)"
 done
